@@ -124,10 +124,14 @@ def check_c13(rep, tier):
         if len(times) > 1 or len(best) != 1:
             rep.violation("impl-vs-spec", f"`{cmd}`: {len(times)} info time lines, {len(best)} bestmove lines", "", replay_ops=[cmd])
             continue
+        complete = all(parse_u64(t.get(k)) is not None for k in ("wtime", "btime", "winc", "binc"))
+        mt = parse_u64(t.get("movetime"))
+        if not times and (complete or mt is not None) and not t.get("infinite"):
+            # decided on the implementation: a clock or a move time was given and nothing will stop the search
+            rep.violation("impl-vs-spec", f"`{cmd}` ({side} to move) starts no timer: the thinking time is unbounded", "",
+                          replay_ops=[cmd])
         if times:
             T = int(times[0])
-            complete = all(parse_u64(t.get(k)) is not None for k in ("wtime", "btime", "winc", "binc"))
-            mt = parse_u64(t.get("movetime"))
             if mt is not None:
                 if T > mt:
                     rep.violation("impl-vs-spec", f"allotted {T} ms exceeds movetime {mt}: `{cmd}`", "", replay_ops=[cmd])
@@ -153,17 +157,21 @@ def check_c13(rep, tier):
     e = Engine()
     try:
         e.sync(20)
-        for mt in (30, 120, 300):
+        timed = [("go movetime %d" % mt, mt, "movetime_%d" % mt) for mt in (0, 30, 120, 300)]
+        timed += [("go wtime 3000 btime 3000 winc 0 binc 0", 3000, "clock_3000_inc_0"),
+                  ("go wtime 100 btime 100 winc 40 binc 40", 100, "clock_100_inc_40")]
+        for cmd, avail, key in timed:
             e.send("position startpos")
             t0 = time.time()
-            e.send("go movetime %d" % mt)
+            e.send(cmd)
             lines, ok, eof = e.read_until(lambda l: l.startswith("bestmove"), 10)
             dt = (time.time() - t0) * 1000
-            stats["latency_ms_movetime_%d" % mt] = int(dt)
+            stats["latency_ms_" + key] = int(dt)
             if not ok:
-                rep.violation("impl-vs-spec", f"no bestmove within 10 s for go movetime {mt}", "", replay_ops=["go movetime %d" % mt])
-            elif dt > mt + 1500:
-                rep.violation("impl-vs-spec", f"bestmove announced {int(dt)} ms after go movetime {mt}", "", replay_ops=["go movetime %d" % mt])
+                rep.violation("impl-vs-spec", f"no bestmove within 10 s for `{cmd}`", "", replay_ops=["position startpos", cmd])
+                e.send("stop")
+            elif dt > avail + 1500:
+                rep.violation("impl-vs-spec", f"bestmove announced {int(dt)} ms after `{cmd}`", "", replay_ops=["position startpos", cmd])
             e.sync(10)
     finally:
         e.close()
